@@ -131,6 +131,20 @@ pub mod degenerate {
         let s = a.as_slice();
         [s[0], s[1048575], (s.len() == 1048576) as u8]
     };
+    // the same "for every length" for the type-level repeat form: 2^20 copies cost the const evaluator O(1) steps, not one loop iteration per slot
+    pub const HUGE_REPEAT_ENDS: [u8; 3] = {
+        let a: GenericArray<u8, generic_array::typenum::U1048576> = arr![0xa5; generic_array::typenum::U1048576];
+        let s = a.as_slice();
+        [s[0], s[1048575], (s.len() == 1048576) as u8]
+    };
+    // writing through the mutable chunk views inside the const evaluator (a `&mut` view derived from a shared reborrow is rejected there: E0080)
+    pub const CHUNK_WRITES: [u8; 4] = {
+        let mut raw = [[1u8, 2], [3, 4]];
+        { let g: &mut [GenericArray<u8, U2>] = GenericArray::from_chunks_mut(&mut raw); g[1].as_mut_slice()[0] = 9; }
+        let mut ga: [GenericArray<u8, U2>; 2] = [GenericArray::from_array([5, 6]), GenericArray::from_array([7, 8])];
+        { let n: &mut [[u8; 2]] = GenericArray::into_chunks_mut(&mut ga); n[0][1] = 0; }
+        [raw[1][0], raw[0][0], ga[0].as_slice()[1], ga[1].as_slice()[1]]
+    };
     // the constant-length repeat form inside a length-generic const fn / associated const (the length mentions a generic parameter)
     pub const fn splat<const K: usize>(x: u8) -> GenericArray<u8, generic_array::ConstArrayLength<K>>
     where
@@ -140,6 +154,13 @@ pub mod degenerate {
     }
     pub const SPLAT5: GenericArray<u8, U5> = splat::<5>(0xA5);
     pub const LONG_ENDS: [u8; 3] = [LONG.as_slice()[0], LONG.as_slice()[1024], (LONG.as_slice().len() == 1025) as u8];
+    harness! { unwind 6, fn big_and_written_const_items() {
+        let i = any_upto(2);
+        assert!(HUGE_REPEAT_ENDS[i] == [0xa5, 0xa5, 1][i], "arr![x; U1048576] in a const item");
+        let j = any_upto(3);
+        assert!(CHUNK_WRITES[j] == [9, 1, 0, 8][j], "writes through from_chunks_mut / into_chunks_mut inside a const item");
+        kani_cover!(true);
+    }}
     harness! { unwind 6, fn transmutes() {
         assert!(WORD == u32::from_ne_bytes([0x11, 0x22, 0x33, 0x44]), "const_transmute to a more aligned type differs from the bytes");
         let i = any_upto(1);
